@@ -35,6 +35,10 @@ type knownFile struct {
 type baselineFile struct {
 	// property -> function -> number of named obligations on the unchanged tree
 	Properties map[string]map[string]int `json:"properties"`
+	// function -> its parameters, results and locals ("name|type") in
+	// declaration order on the unchanged tree: lets a contract survive a pure
+	// renaming of locals (see Engine.renamesFor)
+	Locals map[string][]string `json:"locals,omitempty"`
 }
 
 type oblRecord struct {
@@ -149,6 +153,14 @@ func cmdCheck(args []string) {
 	}
 	if *baseline {
 		base.Properties[prop] = perFunc
+		if base.Locals == nil {
+			base.Locals = map[string][]string{}
+		}
+		for _, k := range keys {
+			if fd, ok := e.funcs[k]; ok {
+				base.Locals[k] = e.localsOf(fd)
+			}
+		}
 		b, _ := json.MarshalIndent(base, "", " ")
 		os.WriteFile(basePath, append(b, '\n'), 0o644)
 	}
